@@ -141,7 +141,9 @@ func (u *Unit) loopHead(fr *Frame, ci *cfgInfo, b *ssa.BasicBlock, phis []*ssa.P
 	// (checked on every back edge, and at entry trivially by the frame of the prefix)
 	if fr.top && fr.contract != nil && !fr.contract.Inline {
 		if goals, _, _, none := u.frameGoals(fr.fn, fr.contract, fr, fr.entry, in); !none && len(goals) > 0 {
-			u.oblige(in, "invariant", fname, fmt.Sprintf("autoframe%d@entry", n), "", And(goals...), nil)
+			for gi, g := range goals {
+				u.oblige(in, "invariant", fname, fmt.Sprintf("autoframe%d.%d@entry", n, gi), "", g, nil)
+			}
 		}
 		if goals, _, _, none := u.frameGoals(fr.fn, fr.contract, fr, fr.entry, cur); !none {
 			for _, g := range goals {
@@ -181,7 +183,9 @@ func (u *Unit) loopBackEdge(fr *Frame, ci *cfgInfo, from, to *ssa.BasicBlock, s 
 	}
 	if fr.top && fr.contract != nil && !fr.contract.Inline {
 		if goals, _, _, none := u.frameGoals(fr.fn, fr.contract, fr, fr.entry, s); !none && len(goals) > 0 {
-			u.oblige(s, "invariant", fname, fmt.Sprintf("autoframe%d@back%d", n, from.Index), "", And(goals...), nil)
+			for gi, g := range goals {
+				u.oblige(s, "invariant", fname, fmt.Sprintf("autoframe%d.%d@back%d", n, gi, from.Index), "", g, nil)
+			}
 		}
 	}
 	env := u.invEnv(fr, to, s, vals)
